@@ -17,4 +17,12 @@ impl<T> RawTable<T> {
             }),
         }
     }
+
+    /// The `n`-th element the cached move cursor would yield next, if any.
+    pub(crate) fn verif_cursor_nth(&self, n: usize) -> Option<&T> {
+        self.leftovers
+            .as_ref()
+            .and_then(|lo| lo.items.clone().nth(n))
+            .map(|bucket| unsafe { bucket.as_ref() })
+    }
 }
